@@ -6,6 +6,7 @@ package column
 import (
 	"fmt"
 	"math"
+	"strings"
 	"sync"
 
 	"github.com/kelindar/bitmap"
@@ -193,7 +194,9 @@ func (c *columnString) Apply(chunk commit.Chunk, r *commit.Reader) {
 				data[offset] = "" // no value yet, do not merge into what a deleted row left behind
 			}
 			fill[offset>>6] |= 1 << (offset & 0x3f)
-			data[offset] = r.SwapString(c.Merge(data[offset], r.String()))
+			// The delta is a zero-copy view of the (pooled) transaction buffer and a merge
+			// function may return it as is, hence the result must be copied before storing.
+			data[offset] = strings.Clone(r.SwapString(c.Merge(data[offset], r.String())))
 		case commit.Delete:
 			fill.Remove(uint32(offset))
 		}
